@@ -68,6 +68,10 @@ PDFNotImplementedError = pdfexceptions.PDFNotImplementedError
 
 _DEFAULT = object()
 
+# Longest chain of indirect objects whose value is itself an indirect reference
+# that is followed before it is considered a loop.
+MAX_REFERENCE_CHAIN = 64
+
 
 class PDFObjRef(PDFObject):
     def __init__(
@@ -113,8 +117,13 @@ def resolve1(x: object, default: object = None) -> Any:
     If this is an array or dictionary, it may still contains
     some indirect objects inside.
     """
+    depth = 0
     while isinstance(x, PDFObjRef):
         x = x.resolve(default=default)
+        depth += 1
+        if depth > MAX_REFERENCE_CHAIN:
+            # a loop of indirect objects that are references to each other
+            return default
     return x
 
 
